@@ -13,7 +13,7 @@ C07 (revisions) and C11 (identifier allocation):
     that prefers a later match (the self-recursive continuation from match+1 combined with `or`, or a reverse scan)."""
 import re
 import lib
-from mir import op_place, op_const, const_int
+from mir import op_place, op_const, const_int, AnchorLost
 
 
 def run(ctx, F, which=("R1", "R2")):
@@ -176,3 +176,88 @@ def no_early_object_reads(ctx, F):
     ctx.ob("R-ORDER", "no-object-reads-before-objects-loaded", not early, "no Document query that depends on `objects` runs before the objects are loaded", rd.where(),
            what="Reader::read calls %s before document.objects is filled: the answer is computed from an empty object table "
                 "(an encrypted file is taken for unencrypted and its object streams are parsed as ciphertext and dropped)" % early)
+
+
+def xref_stream_defaults(ctx, F, R="R-TABLE"):
+    """ISO 32000-1 Table 17/18: when the first width of /W is zero the type field is absent and every entry is of type 1
+    (in use); when the third width is zero the generation of a type 1 entry is 0.  The value that selects the entry kind
+    (the scrutinee of the 0/1/2 dispatch) therefore has exactly one constant definition, 1, and the generation that ends up
+    in XrefEntry::Normal exactly one constant definition, 0."""
+    from mir import op_place, op_const, const_int
+    b = F.fn("parser_aux::decode_xref_stream")
+    scl = lib.local_scope(F, b)
+    found = []
+    for bb in scl:
+        for bi in range(bb.n):
+            t = bb.term(bi)
+            if t["k"] != "switch" or t["dty"] in ("bool", "isize") or not t["dty"].startswith(("u", "i")):
+                continue
+            vals = set(int(v) for v, _ in t["tg"])
+            if not {0, 1, 2} <= vals:
+                continue
+            p = op_place(t["d"])
+            if p is None or p["p"]:
+                continue
+            consts, others = [], 0
+            seen, work = set(), [p["l"]]
+            while work:
+                l = work.pop()
+                if l in seen:
+                    continue
+                seen.add(l)
+                for d in bb.defs.get(l, []):
+                    if d[2] == "rv" and d[3]["k"] in ("use", "cast"):
+                        k = op_const(d[3]["o"])
+                        if k is not None:
+                            consts.append(const_int(k))
+                        else:
+                            q = op_place(d[3]["o"])
+                            if q is not None and not q["p"]:
+                                work.append(q["l"])
+                            else:
+                                others += 1
+                    else:
+                        others += 1
+            found.append((bb, bi, consts, others))
+    if len(found) != 1:
+        raise AnchorLost("decode_xref_stream: expected one dispatch on the entry type (0/1/2), found %d" % len(found))
+    bb, bi, consts, others = found[0]
+    ctx.ob(R, "xref-stream|absent-type-field-means-in-use", consts == [1] and others >= 1, "the entry type is read from the stream or is the constant %s" % consts, bb.where(bb.term(bi)["ln"]),
+           what="decode_xref_stream: when /W[0] is 0 the entry type defaults to %s instead of 1 (ISO 32000-1 Table 17: type 1, in use): every entry of such a cross-reference stream is dropped or misread" % consts)
+    # generation default: the operand stored into XrefEntry::Normal.generation
+    gens = []
+    for bb2 in scl:
+        for bi2, si2, st in bb2.stmts():
+            rv = st.get("rv")
+            if rv and rv["k"] == "agg" and rv["kind"].get("var") == "Normal" and len(rv["ops"]) == 2:
+                fields = rv["kind"].get("fields") or ["offset", "generation"]
+                go = rv["ops"][fields.index("generation")] if "generation" in fields else rv["ops"][1]
+                consts, others = [], 0
+                seen, work = set(), []
+                q = op_place(go)
+                if q is not None and not q["p"]:
+                    work.append(q["l"])
+                while work:
+                    l = work.pop()
+                    if l in seen:
+                        continue
+                    seen.add(l)
+                    for d in bb2.defs.get(l, []):
+                        if d[2] == "rv" and d[3]["k"] in ("use", "cast"):
+                            k = op_const(d[3]["o"])
+                            if k is not None:
+                                consts.append(const_int(k))
+                            else:
+                                q2 = op_place(d[3]["o"])
+                                if q2 is not None and not q2["p"]:
+                                    work.append(q2["l"])
+                                else:
+                                    others += 1
+                        else:
+                            others += 1
+                gens.append((bb2, st["ln"], consts, others))
+    if len(gens) != 1:
+        raise AnchorLost("decode_xref_stream: expected one XrefEntry::Normal construction, found %d" % len(gens))
+    bb2, ln, consts, others = gens[0]
+    ctx.ob(R, "xref-stream|absent-generation-is-zero", consts in ([0], []) and others >= 1, "the generation is read from the stream or is the constant %s" % consts, bb2.where(ln),
+           what="decode_xref_stream: when /W[2] is 0 the generation of an in-use entry defaults to %s instead of 0 (ISO 32000-1 Table 18)" % consts)
